@@ -17,3 +17,4 @@ def run(ctx, R):
     n = v1model.check_window(ctx, R, 'C01.W', 'str') + v1model.check_window(ctx, R, 'C01.W', 'bytes')
     R.floor('window instances', n, 8)
     v1model.c01_rules(ctx, R)
+    v1model.c01_accept(ctx, R, 'C01.A')
